@@ -1,0 +1,1 @@
+//! Hooks for property C24 (empty unless needed).
